@@ -21,6 +21,12 @@ G_ERR = 'pre ME post\n'
 OUTS = {'same': G_OUT, 'match': 'xx MO yy\n', 'nomatch': 'zz\n'}
 ERRS = {'same': G_ERR, 'match': 'xx ME yy\n', 'nomatch': 'zz\n'}
 G_EXIT = 3
+# the cross-check command has a golden behaviour of its own
+C_OUT = 'cc MO out\n'
+C_ERR = 'cc ME err\n'
+C_EXIT = 5
+C_OUTS = {'same': C_OUT, 'match': 'MO only\n', 'nomatch': G_OUT.replace('MO', 'mo')}
+C_ERRS = {'same': C_ERR, 'match': 'ME only\n', 'nomatch': G_ERR.replace('ME', 'me')}
 
 
 def outcome_rules(prefix):
@@ -28,12 +34,17 @@ def outcome_rules(prefix):
     anything else behaves like the golden run."""
     rules = []
     outcomes = []
-    for ex, o, e in itertools.product(('sameexit', 'diffexit'), OUTS, ERRS):
+    gex, gout, gerr, outs, errs = (G_EXIT, G_OUT, G_ERR, OUTS, ERRS) \
+        if prefix == 'M' else (C_EXIT, C_OUT, C_ERR, C_OUTS, C_ERRS)
+    for ex, o, e in itertools.product(('sameexit', 'diffexit'), outs, errs):
         tok = f'{prefix}_{ex}_{o}_{e}'
-        code = G_EXIT if ex == 'sameexit' else 4
-        rules.append(realrun.rule(f'has:{tok}', code, OUTS[o], ERRS[e]))
-        outcomes.append((tok, (code, OUTS[o], ERRS[e])))
-    rules.append(realrun.rule('all', G_EXIT, G_OUT, G_ERR))
+        # the 'different' exit code of one command is the golden exit code
+        # of the other one
+        code = gex if ex == 'sameexit' else (C_EXIT if prefix == 'M'
+                                             else G_EXIT)
+        rules.append(realrun.rule(f'has:{tok}', code, outs[o], errs[e]))
+        outcomes.append((tok, (code, outs[o], errs[e])))
+    rules.append(realrun.rule('all', gex, gout, gerr))
     return rules, outcomes
 
 
@@ -85,7 +96,7 @@ def documented_verdict(main_opts, main_run, cc_opts=None, cc_run=None):
                          match_out=m_out, match_err=m_err)
     if ok and cc_opts is not None:
         ign_cc, m_out_cc, m_err_cc = cc_opts
-        ok = realrun.matches((G_EXIT, G_OUT, G_ERR), cc_run,
+        ok = realrun.matches((C_EXIT, C_OUT, C_ERR), cc_run,
                              ignore_out=ign_cc, ignore_err=ign_cc,
                              match_out=m_out_cc, match_err=m_err_cc)
     return ok
@@ -231,7 +242,7 @@ def argv_runs(res, wd, args):
                 rules = realrun.simple_spec('has:x')
                 run = realrun.run_ddsmt(
                     d, text, rules, infile_name=name,
-                    outfile_name='out' + os.path.splitext(name)[1],
+                    outfile_name='result.out',
                     extra_cmd_args=extra,
                     opts=['--strategy', strat, '-j', str(j), '--timeout',
                           '20'])
